@@ -71,10 +71,10 @@ REQS = {
     'one': ('[seg(rp, rl, False)]', ['rp', 'rl'], ['1 <= rp <= 0xFFFF and 0 <= rl <= 255']),
     'oneadr': ('[seg(rp, rl, True)]', ['rp', 'rl'], ['1 <= rp <= 0xFFFF and 0 <= rl <= 3']),
     'two': ('[seg(rp, rl, False), seg(2, rm, False)]', ['rp', 'rl', 'rm'], ['1 <= rp <= 0xFFFF and 0 <= rl <= 255 and 0 <= rm <= 255']),
-    'onestr': ("[seg(rp, rl, 'str')]", ['rp', 'rl'], ['1 <= rp <= 0xFFFF and 0 <= rl <= 2']),
+    'onestr': ("[seg(rp, rl, 'str')]", ['rp', 'rl'], ['1 <= rp <= 2 and 0 <= rl <= 2']),
 }
 QUICK = {('none', 'one', 'write'), ('simple', 'absent', 'read'), ('simple', 'empty', 'write'), ('simple', 'one', 'write'), ('one', 'one', 'write'),
-         ('one', 'absent', 'read'), ('one', 'two', 'gaa'), ('oneadr', 'oneadr', 'write'), ('one', 'oneadr', 'read'), ('two', 'two', 'write'), ('one', 'onestr', 'write')} - {('oneadr', 'oneadr', 'write')}
+         ('one', 'absent', 'read'), ('one', 'two', 'gaa'), ('oneadr', 'oneadr', 'write'), ('two', 'two', 'write'), ('one', 'onestr', 'write')} - {('oneadr', 'oneadr', 'write')}
 for cn, (cexpr, cparams, cpre) in CONFIGS.items():
     for rn, (rexpr, rparams, rpre) in REQS.items():
         for service in ('read', 'write', 'gaa'):
@@ -133,7 +133,7 @@ def do_text(form, p0, p1, l0, l1, q0, m0):
 
 for form in ('pl', 'plpl', 'ip', 'jsonlist', 'jsondict', 'portlink', 'connection'):
     define(globals(), 'C15', 'text_%s' % form, ['p0', 'p1', 'l0', 'l1', 'q0', 'm0'], "return do_text(%r, p0, p1, l0, l1, q0, m0)" % form,
-           ['0 <= p0 <= 9 and 0 <= p1 <= 9 and p0 + p1 >= 1 and 0 <= l0 <= 2 and 0 <= l1 <= 9 and 1 <= q0 <= 2 and 8 <= m0 <= 9'],
+           ['0 <= p0 <= 1 and 0 <= p1 <= 9 and p0 + p1 >= 1 and 0 <= l0 <= 1 and 0 <= l1 <= 9 and 1 <= q0 <= 2 and 8 <= m0 <= 9'],
            tier='quick' if form in ('pl', 'plpl', 'ip', 'connection') else 'thorough', timeout=2400, path_timeout=60,
            drives=['cpppo.server.enip.device.parse_route_path', 'cpppo.server.enip.device.port_link', 'cpppo.server.enip.device.parse_connection_path'],
            bounds="textual route path form %r built from symbolic DIGITS (2-digit port incl. leading zero, 2-digit link, 1-digit second hop / "
